@@ -81,6 +81,20 @@ func encodeArgs(v int16, token string, x int32) []byte {
 	return b
 }
 
+// argsFor builds the argument buffer of the request's function.
+func argsFor(s reqSpec) []byte {
+	if s.Func != "nothing" {
+		return encodeArgs(s.Version, s.Token, s.X)
+	}
+	switch s.Version {
+	case 3:
+		return rc.AppendInt(rc.AppendHead(nil, rc.TMap, 0), 0, 0)
+	case 5:
+		return []byte("{}")
+	}
+	return nil
+}
+
 // decodeResult extracts (ret, tokenOut) from a response buffer per version.
 func decodeResult(v int16, buf []byte) (int64, string, error) {
 	switch v {
@@ -259,7 +273,7 @@ func buildRequest(s reqSpec, obj string) []byte {
 	if s.OneWay {
 		pt = 1
 	}
-	return (&netlab.Request{Version: s.Version, PacketType: pt, RequestID: s.ID, Servant: obj, Func: s.Func, Buffer: encodeArgs(s.Version, s.Token, s.X), Timeout: s.Timeout,
+	return (&netlab.Request{Version: s.Version, PacketType: pt, RequestID: s.ID, Servant: obj, Func: s.Func, Buffer: argsFor(s), Timeout: s.Timeout,
 		Context: map[string]string{vworld.TokenKey: s.Token}, Status: map[string]string{}}).Encode()
 }
 
@@ -282,6 +296,9 @@ func udpLossSeen(w *vworld.World, cl *client) bool {
 // judge checks one request's responses against its spec.
 func judge(cfg srvCfg, w *vworld.World, cl *client, s reqSpec, wit func(map[string]interface{}) map[string]interface{}) bool {
 	locus := fmt.Sprintf("%s:v%d:%s", cfg.Proto, s.Version, s.Kind)
+	if s.Func == "nothing" {
+		locus += ":void"
+	}
 	wantResponses := 1
 	if s.OneWay {
 		wantResponses = 0
@@ -359,6 +376,9 @@ func judge(cfg srvCfg, w *vworld.World, cl *client, s reqSpec, wit func(map[stri
 		if r.Ret != 0 {
 			run.Violation("return-code", locus, fmt.Sprintf("successful call answered with code %d (%q)", r.Ret, r.Desc), wit(map[string]interface{}{"request": s}))
 			return false
+		}
+		if s.Func == "nothing" {
+			break // a void function without parameters returns nothing to compare
 		}
 		ret, tok, err := decodeResult(s.Version, r.Buffer)
 		if err != nil || ret != s.Ret || tok != s.TokenOut {
@@ -463,6 +483,9 @@ func runConfig(cfg srvCfg, ci int) {
 		default:
 			s.Kind, s.Ret, s.TokenOut = "ok", int64(r.Uint64())>>uint(r.Intn(64)), "out-"+s.Token
 		}
+		if (s.Kind == "ok" || s.Kind == "tars-error" || s.Kind == "plain-error") && i%4 == 3 {
+			s.Func = "nothing" // void, no parameters: the dispatcher has separate call emitters for void functions
+		}
 		if i == 0 {
 			s.ID = 1
 		}
@@ -470,6 +493,9 @@ func runConfig(cfg srvCfg, ci int) {
 			s.ID = 2147483647
 		}
 		d := &vworld.Directive{Ret: s.Ret, Outs: []interface{}{s.TokenOut}}
+		if s.Func == "nothing" {
+			d = &vworld.Directive{}
+		}
 		switch s.Kind {
 		case "tars-error":
 			d = &vworld.Directive{Err: tars.Errorf(s.ErrCode, "%s", s.ErrMsg)}
@@ -482,7 +508,7 @@ func runConfig(cfg srvCfg, ci int) {
 	var wg sync.WaitGroup
 	for i, c := range clients {
 		wg.Add(1)
-		go func(c *client, ss []reqSpec) {
+		go func(i int, c *client, ss []reqSpec) {
 			defer wg.Done()
 			if cfg.Proto == "udp" {
 				// datagrams are not flow-controlled: keep at most ~16 answers outstanding per socket so
@@ -502,11 +528,20 @@ func runConfig(cfg srvCfg, ci int) {
 				return
 			}
 			var stream []byte
-			for _, s := range ss {
+			var cuts []int
+			for k, s := range ss {
 				stream = append(stream, buildRequest(s, obj)...)
+				// every other connection: a write ends 1..3 bytes into the next request's length prefix
+				if i%2 == 1 && k+1 < len(ss) && k%3 == 0 {
+					cuts = append(cuts, len(stream)+1+(k/3)%3)
+				}
+			}
+			if len(cuts) > 0 {
+				_ = netlab.WriteChunks(c.conn, stream, cuts, netlab.PaceSleep1ms)
+				return
 			}
 			c.conn.Write(stream)
-		}(c, specs[i])
+		}(i, c, specs[i])
 	}
 	wg.Wait()
 	for i, c := range clients {
@@ -608,7 +643,7 @@ func runConfig(cfg srvCfg, ci int) {
 func main() {
 	run = vlib.Start("C10")
 	rogger.SetLevel(rogger.OFF)
-	run.SetRule("server configurations {tcp,udp} x pool {0,1,4} x handle timeout {0,250 ms}; per configuration a pipelined burst over 1/3/10 connections of requests drawn from versions {TARS,TUP,JSON} x {two-way, one-way} x kinds {success with result values, tars.Error, plain error, tars_ping, unknown function} x ids (sequential, negative, 1, MaxInt32) x request timeouts {0,3 s,60 s}; with pool 1: three requests (one per version) whose 50 ms timeout elapses behind a gated handler; with a handle timeout: gated over-long handlers per version and one-way. A case is one request; distinct = distinct (configuration, version, kind, one-way).")
+	run.SetRule("server configurations {tcp,udp} x pool {0,1,4} x handle timeout {0,250 ms}; per configuration a pipelined burst over 1/3/10 connections of requests drawn from versions {TARS,TUP,JSON} x {two-way, one-way} x kinds {success with result values, tars.Error, plain error, tars_ping, unknown function} x functions {outFirst (out before in, result), nothing (void, no parameters)} x ids (sequential, negative, 1, MaxInt32) x request timeouts {0,3 s,60 s}; with pool 1: three requests (one per version) whose 50 ms timeout elapses behind a gated handler; with a handle timeout: gated over-long handlers per version and one-way. A case is one request; distinct = distinct (configuration, version, kind, one-way).")
 	run.Assume("the TUP reply layout (RequestPacket-shaped) carries no return code, so codes/messages are judged for TARS and JSON requests")
 	var cfgs []srvCfg
 	for _, p := range []string{"tcp", "udp"} {
